@@ -188,6 +188,18 @@ def main(tier, seed):
             if not ok:
                 r.inconclusive_(f"set_params[{name}]", "vector entries are not placed one-to-one (symbolic placement check)")
 
+    # ---- (e0) CEM proposes candidates within the bounds
+    for (npop, d) in ([(3, 2)] if tier == "quick" else [(2, 1), (3, 2), (4, 2)]):
+        def samp(mean, var, key, lb, ub, npop=npop):
+            return cem.cem_sample(mean, var, key, npop, lb, ub)
+        ex = (jnp.zeros(d), jnp.ones(d) * 0.5, jax.random.key(seed), -jnp.ones(d), jnp.ones(d) * 2)
+        e = E1(r, sess, samp, ex, f"cem_sample[pop={npop},d={d}]", validate_sets=[ex])
+        mean, var, key, lb, ub = e.ins
+        e.add_hyp(S.SA(lb) <= S.SA(mean), S.SA(mean) <= S.SA(ub), S.SA(var) >= 0)
+        e.check_reachable()
+        e.obligation("candidates-within-bounds", lambda i, o, npop=npop, d=d: [S.le(S.bcast(S.SA(i[3]), (npop, d)), S.SA(o)), S.le(S.SA(o), S.bcast(S.SA(i[4]), (npop, d)))],
+                     site="cem_sample:candidates-within-bounds")
+
     # ---- (e) CEM update: exactly the n_elite best, convex mean update
     for (npop, n_el, d) in ([(3, 1, 1), (3, 2, 2)] if tier == "quick" else [(3, 1, 1), (3, 2, 2), (4, 2, 1), (4, 1, 2)]):
         def upd(samples, fit, mean, var, alpha, n_el=n_el):
